@@ -20,6 +20,11 @@ the filter object resolve something different: width, position of a name, key of
 Header maps need not name every column (HeadRows with a Mapping/Sequence naming a subset, a CSV header line shorter
 than its data lines), and on sparse rows keyed by header name (sparse ARFF, dicts + HeadRows) the label may be given
 by position through any stack of views; `domain_features` counts how often those shapes reach each kind of stage.
+
+LabelRows may stand anywhere in the chain: feats/label are read behind the stages that follow it (header assignment,
+encoding, column drops act on rows that already are labelled) and must be the parts of the row as it is then -- the
+label is the column it was given as, feats the remaining columns -- until a stage drops the label column or
+EncodeCatRows rebuilds the rows (`domain.label-then.*`, `oracle.*.part-behind-later-stage`).
 """
 import random
 from vf import rows_c13 as M
@@ -34,7 +39,8 @@ RULE  = ("seeded (table, pipeline, access script) triples: table in {dense list/
          "encoder that accepts every string -- and are a missing value or an ordinary value depending on the column's type); pipeline "
          "of 0-6 stages from HeadRows(seq/map/permuted map/map or sequence naming only some columns), EncodeRows(seq/map "
          "by index/name), DropRows(cols by index/name, row predicates), LabelRows(index/name; on sparse rows keyed by "
-         "header name also by position through any stack of views), EncodeCatRows(onehot/onehot_tuple/string); 10-24 accesses "
+         "header name also by position through any stack of views; at any place of the chain, so that later stages act on labelled rows and "
+         "feats/label are read behind them), EncodeCatRows(onehot/onehot_tuple/string); 10-24 accesses "
          "per row replayed in two orders on two builds; in ~30% of the cases with stages the same filter objects also process "
          "a prior table derived from the judged one (columns moved / renamed / added / removed / re-typed, other rows, other "
          "row class, or the other layout) before / around / after reading the judged table, in ~15% the second build re-reads "
@@ -64,10 +70,13 @@ REQUIRED = ["oracle.dense.pos", "oracle.dense.name", "oracle.dense.iter", "oracl
             "domain.marker-token.value@dense", "domain.marker-token.value@sparse",
             "oracle.dense.marker-token-is-a-value.pos", "oracle.dense.marker-token-is-a-value.name",
             "oracle.dense.marker-token-is-a-value.part", "oracle.sparse.marker-token-is-a-value.key",
-            "oracle.sparse.marker-token-is-a-value.part"]
+            "oracle.sparse.marker-token-is-a-value.part",
+            "domain.label-then.dense.head", "domain.label-then.dense.encode", "domain.label-then.dense.dropcols",
+            "domain.label-then.sparse.head", "domain.label-then.sparse.encode", "domain.label-then.sparse.dropcols",
+            "oracle.dense.part-behind-later-stage", "oracle.sparse.part-behind-later-stage"]
 ASSUMPTIONS = [
     "only keys that exist in the eager model are accessed: positions 0..len-1, header names that survive, sparse keys present in the model row; negative positions, dropped names and out-of-range positions are never used",
-    "feats/label are only checked when no column-changing stage follows LabelRows (row-only DropRows may follow); feats is compared by iteration, length, position/key access and equality, never by header name on dense rows",
+    "feats/label are checked behind every stage that follows LabelRows (header assignment, encoding, column and row drops: the label stays the column it was given as, feats are the other columns of the row as it is now) for as long as the label column survives; what they mean after a stage dropped the label column or after EncodeCatRows rebuilt the rows is not asserted; feats is compared by iteration, length, position/key access and equality, never by header name on dense rows",
     "dense header maps give at most one unique string name per column and only name positions that exist (they need not name every column; names of unnamed/dropped columns are never used); sparse header maps cover every key of the table; Sequence encoders have exactly one encoder per column",
     "on sparse rows keyed by header name an integer label means the column the (outermost) header map places at that position (ARFF attribute index / the integer key under HeadRows); positions are not renumbered by sparse column drops; it is only used while that column survives, and never after a second header map renamed names to names or after EncodeCatRows rebuilt the rows",
     "CSV text is generated in the plainest dialect (no quotes, no embedded separators, no blank lines); dialect questions belong to C12",
@@ -569,6 +578,13 @@ def do_access(dense, row, acc, real_rows):
     raise ValueError(kind)
 
 _KEYED = ("pos", "name", "key", "label", "f_pos", "f_key")      # reads of one cell (everything else goes through iteration)
+_PARTS = ("label", "f_iter", "f_items", "f_len", "f_pos", "f_key", "f_eq")
+
+def _later_stages(spec):
+    """the column-changing stages that follow the label stage (they act on rows that already are labelled)"""
+    ks = [s["k"] for s in spec["stages"]]
+    if "label" not in ks: return []
+    return [s for s in spec["stages"][ks.index("label") + 1:] if s["k"] in ("head", "encode") or (s["k"] == "drop" and s["cols"])]
 
 def _mode(kind, got, exp):
     if kind in ("len", "f_len"): return "wrong-length"
@@ -602,9 +618,11 @@ def check_core(spec, ctx=None):
     lay = spec["layout"]
     seen = set()
     marked = ctx is not None and any(f.startswith("value.") for f in M.marker_features(lay, spec["source"]))
+    behind = ctx is not None and st.feats_ok and _later_stages(spec)   # feats/label are read behind stages that follow LabelRows
     for ri, accs in enumerate(plan):
         for ai, acc in enumerate(accs):
             note(f"oracle.{lay}.{acc[0]}")
+            if behind and acc[0] in _PARTS: note(f"oracle.{lay}.part-behind-later-stage")
             if marked and acc[0] in _KEYED and acc[2][0] in ("str", "cat") and acc[2][1] in ("", "?"):
                 note(f"oracle.{lay}.marker-token-is-a-value." + ("part" if acc[0] in ("label", "f_pos", "f_key") else acc[0]))
             try: got = ("ok", do_access(dense, real[ri], acc, real))
@@ -792,8 +810,11 @@ def check_case(spec, ctx=None):
         spec, res = plain, rp                                # it does not: reported as the plain pipeline's failure
     # shortest failing prefix; every cell is also read by key there, so that a wrong cell is found at the stage that
     # introduces it whatever cells the script of the case happened to ask for behind the later stages
-    sweep = [[k, r] for k in dict.fromkeys(k for k in (DENSE_KINDS if spec["layout"] == "dense" else SPARSE_KINDS) if k in _KEYED) for r in range(8)]
-    for j in range(len(spec["stages"])):
+    kinds = DENSE_KINDS if spec["layout"] == "dense" else SPARSE_KINDS
+    sweep = [[k, r] for k in dict.fromkeys(k for k in kinds if k in _KEYED) for r in range(8)]
+    # behind stages that follow LabelRows every view of the parts is read, so that the same access names the failure every time
+    if _later_stages(spec): sweep += [[k, 0] for k in dict.fromkeys(kinds) if k in _PARTS and k not in _KEYED]
+    for j in range(len(spec["stages"]) + (1 if _later_stages(spec) else 0)):      # (there the whole chain is swept as well)
         sub = dict(spec, stages=spec["stages"][:j], script=spec["script"] + sweep)
         try: r = check_core(sub)
         except Exception: continue
@@ -803,10 +824,19 @@ def check_case(spec, ctx=None):
     for kind, mode, what in _pick(res):
         small = shrink(spec, kind, mode)
         tags = [stage_tag(s) for s in small["stages"]]
+        # the parts differ behind a stage that follows LabelRows: the chain is named from the label stage on (what had to
+        # stay before it only supplies the names the later stages use) and the parts are named as feats / label
+        if kind in _PARTS and _later_stages(small):
+            tags = ["label"] + tags[[s["k"] for s in small["stages"]].index("label") + 1:]   # however the label was given
+            kind = "label" if kind == "label" else "feats"
         # stages that could not be removed between the first and the last one (later stages refer to their columns)
         # are not part of the mechanism's name
         chain = (">".join(tags) if len(tags) <= 2 else f"{tags[0]}>..>{tags[-1]}") or "-"
         sig = f"{spec['layout']}/{src_tag(small)}/{chain}/{kind}/mode={mode}"
+        # one signature per mechanism: the parts are built from the row beneath the label view, so no stage that follows
+        # LabelRows shows in them (whatever the stage and whatever turns out wrong)
+        if kind in ("label", "feats") and tags[:1] == ["label"] and len(tags) > 1 and not mode.startswith("raise"):
+            sig = f"{spec['layout']}/stage-after-LabelRows-does-not-reach-{kind}"
         out.append((sig, what + f" || minimal: source={src_tag(small)} stages={small['stages']}"))
     return out
 
@@ -814,11 +844,12 @@ def check_case(spec, ctx=None):
 def domain_features(spec):
     """replays the model stage by stage; returns (final state, structural features the case exercises)"""
     st = M.model_source(spec["layout"], spec["source"])
-    feats = set()
+    feats = set(); later = set()
     views = 0                                                # lazy views stacked on the row that carries the sparse header map
     if st.partial_headers(): feats.add("partial-headers.source")
     for s in spec["stages"]:
         k = s["k"]
+        labelled = st.label is not None and st.feats_ok
         if st.partial_headers():
             if k == "encode": feats.add("partial-headers.encode-" + s["form"])
             elif k == "drop" and s["cols"]: feats.add("partial-headers.dropcols")
@@ -832,7 +863,10 @@ def domain_features(spec):
             elif k == "encode" or (k == "drop" and s["cols"]): views += 1
         st = M.apply_stage(st, s)
         if k == "head" and st.partial_headers(): feats.add("partial-headers.head")
+        if labelled and st.label is not None and (k in ("head", "encode") or (k == "drop" and s["cols"])):
+            later.add(f"label-then.{st.layout}." + ("dropcols" if k == "drop" else k))
     if st.label is None: st.feats_ok = False
+    if st.feats_ok: feats |= later                           # a stage changed columns of labelled rows and the label column is still there
     return st, feats
 
 def reuse_features(spec):
